@@ -1,7 +1,7 @@
 (* C13 - Statistics queries and pagination are faithful views of the ledger. *)
 From Coq Require Import String List ZArith Bool.
 From Orbiter Require Import Lib.Str Lib.Res Gen.Constants Model.Ids Model.Env Model.Payload Model.State Model.Pipeline Model.Msgs Model.Genesis Model.Page
-     Proofs.OrderTheory Proofs.GenesisProofs Proofs.PageProofs Corr.RunPage Props.Examples.
+     Proofs.OrderTheory Proofs.GenesisProofs Proofs.GasHistories Proofs.PageProofs Corr.RunPage Props.Examples.
 Import ListNotations.
 Open Scope string_scope.
 Open Scope Z_scope.
@@ -13,6 +13,15 @@ Open Scope list_scope.
 Theorem C13_reachable : forall cfg e ops w, Inv (w_o w) -> Inv (w_o (final_world cfg e w ops)).
 Proof. exact (fun cfg e ops w => history_inv cfg e ops w). Qed.
 Print Assumptions C13_reachable.
+
+(* ... on ANY chain: whatever its Hyperlane hooks charge for gas, a history reaches a world that a history on the
+   chain without such hooks reaches too (the gas payments made explicit as plain movements), so the invariant holds *)
+Theorem C13_reachable_any_hooks : forall g cfg e ops w, Inv (w_o w) -> Inv (w_o (final_world_gas g cfg e w ops)).
+Proof. exact history_inv_gas. Qed.
+Print Assumptions C13_reachable_any_hooks.
+Theorem C13_reachable_simulated : forall g cfg e ops w, exists ops', final_world_gas g cfg e w ops = final_world cfg e w ops'.
+Proof. exact gas_history_simulated. Qed.
+Print Assumptions C13_reachable_simulated.
 
 (* direct lookups: the entry is returned exactly when the ledger holds it - and every entry the ledger
    holds is non-zero; identifiers are validated first *)
